@@ -545,6 +545,14 @@ func Coordinate(c *Check, tier string, self string) int {
 		v := reproduceCrash(c, p, self)
 		if v == nil {
 			se := extraString(p.Extra, "crash_stderr")
+			if extraString(p.Extra, "crash_kind") == "hang" {
+				// the run exceeded the watchdog in the worker but completed normally
+				// and without a violation when re-executed alone: an overloaded
+				// machine, not a hang (a genuine hang is deterministic and reproduces)
+				a.stats["slow_runs_reexecuted_ok"]++
+				fmt.Printf("NOTE: run %d exceeded the watchdog under load; re-executed alone it completed without a violation\n", p.Run)
+				continue
+			}
 			a.infra = append(a.infra, fmt.Sprintf("run %d crashed or hung (%s) but did not reproduce; its signature was %q; stderr tail: %s", p.Run, extraString(p.Extra, "crash_kind"), crashViolation(c, crashKind(se), se).Sig(), tail(se, 1200)))
 			continue
 		}
